@@ -360,6 +360,17 @@ func mutateStream(r *rng.R, s []sitem, n int) ([]sitem, []string) {
 			break
 		}
 		i := r.Intn(len(s))
+		if r.P(1, 7) && s[i].act == 0 && s[i].cid < 1000 {
+			// identity-multihash blocks whose payload is the link's digest (see case 5)
+			s[i].blk = 3000 + s[i].cid
+			if r.P(1, 2) {
+				s[i].cid = s[i].blk
+				tags = append(tags, "mut:identity-digest-link")
+			} else {
+				tags = append(tags, "mut:identity-digest-block")
+			}
+			continue
+		}
 		switch r.Intn(9) {
 		case 0: // drop
 			s = append(append([]sitem{}, s[:i]...), s[i+1:]...)
